@@ -154,7 +154,7 @@ func genDNA(r *rand.Rand, n int) []byte {
 }
 
 func c17Sketches(c *Ctx) {
-	n := c.N(1500, 60000)
+	n := c.N(2500, 200000)
 	for i := 0; i < n; i++ {
 		c.Case(int64(i), func(k *K) {
 			r := k.Rand()
@@ -307,7 +307,7 @@ func closedForm(j float64, k int) float64 {
 }
 
 func c17Distance(c *Ctx) {
-	n := c.N(600, 20000)
+	n := c.N(1000, 80000)
 	for i := 0; i < n; i++ {
 		c.Case(int64(i), func(k *K) {
 			r := k.Rand()
